@@ -47,7 +47,7 @@ transmits nothing; the station is a listener again, or — the last transmission
 addressed to it, now complete — it has accepted the token. -/
 def ListenOut (cfg : Cfg) (M : List Nat) (adr : Nat → Nat) (b : Bus) (H Lo : Int) (j : Nat) (st : NetStation) (now : Int) : Prop :=
   ∃ inc c, b.deliver j now = ({ b with seen := b.seen.set j now }, inc) ∧
-    st.s.poll [] now (b.transmitting j now) (st.rx ++ inc) = .ok c ∧ c.tx = none ∧
+    st.s.poll st.apps now (b.transmitting j now) (st.rx ++ inc) = .ok c ∧ c.tx = none ∧
     (LOk cfg M adr { b with seen := b.seen.set j now } H Lo j (upSt st c) ∨
      ((∃ t a, b.txs.getLast? = some t ∧ t.bytes = tokenBytes (adr j) a) ∧ StOkN cfg M (upSt st c) (adr j) ∧
         c.s.st = .useToken ⟨now, none⟩ false ∧ c.s.lastBusActivity = some now ∧ c.s.pendingBytes = 0 ∧ c.rx = [] ∧
@@ -83,14 +83,13 @@ theorem listener_ongoing {cfg : Cfg} {M : List Nat} {adr : Nat → Nat} {n : Nat
     | false =>
       simp only [Bool.false_eq_true, if_false] at h10
       rw [h10.1]; simp
-  have hp := poll_ongoing st.s [] now (b.transmitting j now) (st.rx ++ []) hok.son hst.1 hst.2 l h7 hnl
+  have hp := poll_ongoing st.s st.apps now (b.transmitting j now) (st.rx ++ []) hok.son hst.1 hst.2 l h7 hnl
   refine ⟨[], _, hd, hp, rfl, .inl ?_⟩
   have hjl : j < b.seen.length := by rw [hlog.seen]; exact hj
-  have hup : upSt st { s := st.s, apps := [], rx := st.rx ++ [] } = st := by
+  have hup : upSt st { s := st.s, apps := st.apps, rx := st.rx ++ [] } = st := by
     unfold upSt
-    have := hok.apps
     cases st
-    simp_all
+    simp
   rw [hup]
   refine ⟨hok, dn, rs, idle, l, h1, ?_⟩
   rw [getD_set_self b j now hjl]
@@ -195,13 +194,13 @@ theorem listener_quiet {cfg : Cfg} {M : List Nat} {adr : Nat → Nat} {n : Nat} 
         omega
       omega
   -- the poll
-  have hpoll : ∃ c, st.s.poll [] now false (arrived cfg rs now) = .ok c ∧ c.tx = none ∧
-      c.s = checkBusActivity st.s now (arrived cfg rs now).length ∧ c.apps = [] ∧ c.rx = arrived cfg rs now := by
+  have hpoll : ∃ c, st.s.poll st.apps now false (arrived cfg rs now) = .ok c ∧ c.tx = none ∧
+      c.s = checkBusActivity st.s now (arrived cfg rs now).length ∧ c.apps = st.apps ∧ c.rx = arrived cfg rs now := by
     cases idle with
     | true =>
       simp only [if_true] at h10
       obtain ⟨⟨np, coll, hs⟩, hdl⟩ := h10
-      refine ⟨_, idle_poll_partial st.s now _ _ ret np coll l hokS.son hs h7 hl (by omega) ?_ hrec, rfl, rfl, rfl, rfl⟩
+      refine ⟨_, idle_poll_partialA st.s st.apps now _ _ ret np coll l hokS.son hs h7 hl (by omega) ?_ hrec, rfl, rfl, rfl, rfl⟩
       by_cases hnew : st.s.pendingBytes < (arrived cfg rs now).length
       · exact .inl hnew
       · right; have := hnonew hnew; omega
@@ -213,7 +212,7 @@ theorem listener_quiet {cfg : Cfg} {M : List Nat} {adr : Nat → Nat} {n : Nat} 
         | false => rfl
         | true => obtain ⟨pre, t, hpt⟩ := receiveAll_ret_last _ _ _ hrec; cases pre <;> cases hpt
       subst hret
-      exact check_poll_partial st.s now _ .first l hokS.inv hokS.son hs h7 hl (by
+      exact check_poll_partialA st.s st.apps now _ .first l hokS.inv hokS.son hs h7 hl (by
         rw [hokS.slot]
         by_cases hnew : st.s.pendingBytes < (arrived cfg rs now).length
         · exact .inl hnew
@@ -222,6 +221,7 @@ theorem listener_quiet {cfg : Cfg} {M : List Nat} {adr : Nat → Nat} {n : Nat} 
   obtain ⟨f1, f2, f3, f4, -⟩ := checkBA_fields st.s now (arrived cfg rs now).length
   have hokS' : StOkN cfg M (upSt st c) (adr j) :=
     hokS.step now false _ c hc (by rw [hcs]; exact f2) (by rw [hcs, f3]; exact hokS.view) (by rw [hcs, f4]; exact hokS.son)
+      (by rw [hca]; exact hokS.apps)
   refine ⟨inc, c, hd, by rw [hphy, hrx']; exact hc, htx, .inl ⟨hokS', dn, rs, idle, ?_⟩⟩
   -- the new stamp
   have hlast := checkBA_last st.s now (arrived cfg rs now).length (by intro l' hl'; rw [h7] at hl'; cases hl'; exact hl)
@@ -292,12 +292,12 @@ theorem arrivedLen_mono (cfg : Cfg) (rs : List Transmission) (a a' : Int) (h : a
     omega
 
 /-- The context the batch of a listener is folded over, in either mode. -/
-theorem listener_fold_ctx (st : Station) (now l : Int) (rx b' : Bytes) (d : List (Telegram × Bool)) (ret : Bool)
+theorem listener_fold_ctx (st : Station) (apps : Apps) (now l : Int) (rx b' : Bytes) (d : List (Telegram × Bool)) (ret : Bool)
     (idle : Bool) (hon : st.online = true) (hl : st.lastBusActivity = some l) (hlt : l < now)
     (hnew : st.pendingBytes < rx.length) (hto : 0 < st.p.tokenLostTimeout) (hd : d ≠ [])
     (hrec : receiveAll rx = .done b' d ret)
     (hmode : if idle = true then ∃ np coll, st.st = .activeIdle none np coll else st.st = .checkTokenPass .first) :
-    ∃ c0, st.poll [] now false rx = foldTelegrams (idleF now) c0 d ∧ c0.tx = none ∧ c0.rx = b' ∧ c0.apps = [] ∧
+    ∃ c0, st.poll apps now false rx = foldTelegrams (idleF now) c0 d ∧ c0.tx = none ∧ c0.rx = b' ∧ c0.apps = apps ∧
       c0.calls = [] ∧ c0.s.p = st.p ∧ c0.s.online = true ∧ (∃ np coll, c0.s.st = .activeIdle none np coll) ∧
       c0.s.ring = st.ring ∧ c0.s.lastBusActivity = some now := by
   obtain ⟨f1, f2, f3, f4, -⟩ := checkBA_fields st now rx.length
@@ -307,14 +307,14 @@ theorem listener_fold_ctx (st : Station) (now l : Int) (rx b' : Bytes) (d : List
   | true =>
     simp only [if_true] at hmode
     obtain ⟨np, coll, hs⟩ := hmode
-    refine ⟨_, idle_poll_batch st now rx b' d ret np coll l hon hs hl hlt (.inl hnew) hto hrec,
+    refine ⟨_, idle_poll_batchA st apps now rx b' d ret np coll l hon hs hl hlt (.inl hnew) hto hrec,
       rfl, rfl, rfl, rfl, f2, by simp only; rw [f4]; exact hon, ⟨np, coll, by simp only; rw [f1]; exact hs⟩, f3, hlast⟩
   | false =>
     simp only [Bool.false_eq_true, if_false] at hmode
     cases d with
     | nil => exact absurd rfl hd
     | cons x rest =>
-      refine ⟨_, check_poll_batch st now rx b' x rest ret .first l hon hmode hl hlt (.inl hnew) hrec,
+      refine ⟨_, check_poll_batchA st apps now rx b' x rest ret .first l hon hmode hl hlt (.inl hnew) hrec,
         rfl, rfl, rfl, rfl, f2, by simp only; rw [f4]; exact hon, ⟨none, 0, rfl⟩, f3, hlast⟩
 
 theorem eq_dropLast_append {α : Type} : ∀ (l : List α) (t : α), l.getLast? = some t → l = l.dropLast ++ [t] := by
@@ -396,7 +396,7 @@ theorem listener_step {cfg : Cfg} {M : List Nat} {adr : Nat → Nat} {n : Nat} {
     cases idle with
     | true => simp only [if_true] at h10 ⊢; exact h10.1
     | false => simp only [Bool.false_eq_true, if_false] at h10 ⊢; exact h10.1
-  obtain ⟨c0, hp0, c1, c2, c3, c4, c5, c6, c7, c8, c9⟩ := listener_fold_ctx st.s now l (arrived cfg rs now) b' d ret idle
+  obtain ⟨c0, hp0, c1, c2, c3, c4, c5, c6, c7, c8, c9⟩ := listener_fold_ctx st.s st.apps now l (arrived cfg rs now) b' d ret idle
     hokS.son h7 hl' hnew (by unfold Cfg.gmax at htto; omega) hdn hrec hmode
   have hme : c0.s.p.address = adr j := by rw [c5]; exact hokS.addr
   have hv0 : RingView M (adr j) c0.s.ring := by rw [c8]; exact hokS.view
@@ -412,7 +412,7 @@ theorem listener_step {cfg : Cfg} {M : List Nat} {adr : Nat → Nat} {n : Nat} {
     have hrs' : rs = rs.dropLast ++ [t] := by
       exact eq_dropLast_append rs t hlast
     -- the token comes from the predecessor
-    obtain ⟨i, hi, hsi, hbk | ⟨g, -, -, hbk⟩⟩ := hlog.kinds t (by rw [h1]; apply List.mem_append_right; rw [hrs']; simp)
+    obtain ⟨i, hi, hsi, hbk | ⟨g, -, -, hbk⟩ | ⟨h0, pdu0, hbk, -, -⟩⟩ := hlog.kinds t (by rw [h1]; apply List.mem_append_right; rw [hrs']; simp)
     · have hai := hR.lt i hi
       have haj := hR.lt j hj
       have hsm := hR.ring.bound _ (cycSucc_mem _ M (hR.mem i hi))
@@ -445,10 +445,10 @@ theorem listener_step {cfg : Cfg} {M : List Nat} {adr : Nat → Nat} {n : Nat} {
           (h3 t' (List.dropLast_subset _ ht')) (h9 t' ht')
       obtain ⟨c', hf', a1, a2, a3, a4, a5, a6, a7, a8, a9, a10⟩ := fold_accept M (adr j) now dpre c0 now hfor hme c7 hv0 c9
         (Int.le_refl _) (by rw [hpred]; intro e; exact hR.two _ (hR.mem i hi) (by rw [hinj, e])) haj (by rw [hpred]; exact hai)
-      have hpoll : st.s.poll [] now false (arrived cfg rs now) = .ok c' := by
+      have hpoll : st.s.poll st.apps now false (arrived cfg rs now) = .ok c' := by
         rw [hp0, hdpre, htg, htel]; exact hf'
       have hokS' : StOkN cfg M (upSt st c') (adr j) :=
-        hokS.step now false _ c' hpoll (a5.trans c5) a8 (a6.trans c6)
+        hokS.step now false _ c' hpoll (a5.trans c5) a8 (a6.trans c6) (by rw [a3, c3]; exact hokS.apps)
       refine ⟨inc, c', hd, by rw [hphy, hrx']; exact hpoll, a1.trans c1, .inr ⟨⟨t, a, ?_, hbt ▸ hbk ▸ rfl⟩, hokS', a7, a9, a10,
         by rw [a2, c2, hbn], ?_, fun o ho hs => by have := h0 o ho hs; omega⟩⟩
       · rw [h1, List.getLast?_append, hlast]; rfl
@@ -464,6 +464,9 @@ theorem listener_step {cfg : Cfg} {M : List Nat} {adr : Nat → Nat} {n : Nat} {
     · exfalso
       rw [hbk] at hbt
       exact statusRequest_ne_token _ _ _ _ hbt
+    · exfalso
+      rw [hbk] at hbt
+      exact frameSpec_ne_token _ _ _ _ hbt
   · -- everything consumed is merely overheard
     have hfor : ∀ x ∈ d, Foreign M (adr j) x.1 := by
       intro x hx
@@ -493,9 +496,9 @@ theorem listener_step {cfg : Cfg} {M : List Nat} {adr : Nat → Nat} {n : Nat} {
         omega
     obtain ⟨c', hf', hh, hne', -⟩ := fold_foreign M (adr j) now d c0 now hfor hme c7 hv0 c9 (Int.le_refl _)
     obtain ⟨hl1, hp1⟩ := hne' hdn
-    have hpoll : st.s.poll [] now false (arrived cfg rs now) = .ok c' := by rw [hp0]; exact hf'
+    have hpoll : st.s.poll st.apps now false (arrived cfg rs now) = .ok c' := by rw [hp0]; exact hf'
     have hokS' : StOkN cfg M (upSt st c') (adr j) :=
-      hokS.step now false _ c' hpoll (hh.p.trans c5) hh.view (hh.online.trans c6)
+      hokS.step now false _ c' hpoll (hh.p.trans c5) hh.view (hh.online.trans c6) (by rw [hh.apps, c3]; exact hokS.apps)
     refine ⟨inc, c', hd, by rw [hphy, hrx']; exact hpoll, hh.tx.trans c1, .inl ⟨hokS', dn ++ rs.take k, rs.drop k, true, now, ?_⟩⟩
     rw [getD_set_self b j now hjl]
     unfold upSt
